@@ -4,6 +4,7 @@ check of the property it should break, expect a VIOLATION, revert.  Usage:
    tools/mutants.py [--only C08] [--runs N]
 Never leaves /repo modified (git checkout of the touched file in a finally block)."""
 import argparse, json, os, subprocess, sys, time
+os.environ["VERIF_SCRATCH_EVIDENCE"] = "1"  # sensitivity runs never touch the committed evidence files
 HERE = os.path.dirname(os.path.dirname(os.path.abspath(__file__)))
 sys.path.insert(0, HERE)
 from mutants.table import MUTANTS
